@@ -156,7 +156,13 @@ def build_tree(root, tree0, rng, extra=0):
     for k in range(extra):
         eid = 0x50000B00 + k
         nm = rng.choice(['%08X', 'x%08X.pel', '%08X_%08X' % (IDS[1], eid) if False else 'log_%08X', '.%08X'])
-        put(nm % eid if '%' in nm else nm, _pel(eid, hidden=rng.random() < .3), eid)
+        nm = nm % eid if '%' in nm else nm
+        if rng.random() < .4:
+            # names of every legal length, up to the longest one a directory entry can have (255): a result file's
+            # name is longer than its PEL file's, so near the top the result cannot be created at all
+            want = rng.choice([rng.randrange(20, 236), rng.randrange(236, 256), 255, 242, 241])
+            nm = (nm + '_' + 'n' * 255)[:want]
+        put(nm, _pel(eid, hidden=rng.random() < .3), eid)
     if rng.random() < .5:
         # ids with leading zeros, next to names that contain only the significant digits
         put('2023010112000000_50001234', _pel(0x50001234), 0x50001234)
